@@ -106,7 +106,10 @@ ClausesHold ==
     ELSE
       LET bad == Failed(StepClauses(EOf(TRUE))) \cup Failed(StepClauses(EOf(FALSE)))
           paidTwice == (Rooted(cur, cur') \cap paidVal) \cup (Found(cur, cur') \cap paidDisc)
+          fastOK == (last'.luck /\ last'.k >= 1)
+                       => (WouldChange(cur, ActionAt(last'.k)) <=> cur' # cur)
       IN /\ bad = {} \/ Assert(FALSE, <<"SPECFAIL", bad, KeyOf(cur), last'>>)
+         /\ fastOK \/ Assert(FALSE, <<"SPECFAIL-WouldChange", KeyOf(cur), last'>>)
          /\ paidTwice = {} \/ Assert(FALSE, <<"SPECFAIL-paid-twice", paidTwice, KeyOf(cur), last'>>)
          /\ (~DumpEdges) \/
               PrintT(<<"EDGE", KeyOf(cur), last'.k, last'.luck, KeyOf(cur'),
